@@ -82,6 +82,23 @@ Theorem C18_launcher_file_roundtrip :
 Proof. exact file_roundtrip. Qed.
 Print Assumptions C18_launcher_file_roundtrip.
 
+(* ... also when the file arrives in pieces, provided the first delivery holds the whole IV
+   (Sentinel.Read fetches the IV with a single Read call) *)
+Theorem C18_launcher_file_split_reader :
+  forall (E : list Z -> list Z) iv x c cs, wf_sentinel x ->
+  concat (c :: cs) = write_file E iv x -> len iv <= len c ->
+  read_file_src E (len iv) zero_sentinel (c :: cs) = Ok (norm_sentinel x, []).
+Proof. exact file_src_roundtrip. Qed.
+Print Assumptions C18_launcher_file_split_reader.
+
+(* exact consumption, in one statement for every description type decoded by UnmarshalStream
+   into a fresh value: what follows the encoding is handed back untouched *)
+Theorem C18_exact_consumption :
+  forall d rest, wf_desc d -> (forall f es, d <> DScript f es) ->
+  dec_desc (zero_of d) (enc_desc d ++ rest) = Ok (norm_desc d, rest).
+Proof. exact desc_roundtrip. Qed.
+Print Assumptions C18_exact_consumption.
+
 (* the bound 65535 in C18_sentinel_roundtrip is sharp: the path count is written as a wrapped
    uint16, so 65536 paths are persisted as "no paths" followed by 65535 undecoded paths *)
 Theorem C18_sentinel_count_wraps_refuted :
